@@ -3,14 +3,14 @@ import itertools
 ID = 'C17'
 TRANSLATORS = []
 COQ_TARGETS = ['Properties_C17.vo']
-HARNESS_MODS = ['ep']
+HARNESS_MODS = ['ep', 'be']
 RULE = ('cases: ep.get/ep.getatmost style stream script n (source_get_chunk[_atmost] over a scripted driver; obs: return value - exact errno -, destination '
         'octets on success, driver position, for EINVAL that no driver call was made) / ep.put/ep.putatmost (dual; obs: octets that reached the sink) / plumbing '
         'ep.cbc, ep.ncbc, ep.draincbc, ep.stsn, ep.stsdrain, ep.someaux, ep.atmostaux, ep.naux, ep.drainaux with scripted drivers of both styles on both sides '
         '(obs: return value, sink content, source position, image of the auxiliary buffer, which is an exact-size heap block).  Script alphabet {1,2,3,rest,0,EINTR,'
         'EAGAIN,EIO}: every script up to length 4 (quick) / 5 (thorough) for N in 1..6 on get and put, random scripts up to length 10 for all operations, random long '
-        'transfers.  Non-trivial: script non-empty or N > 1.')
-TRUSTED_BASE = TB_COMMON + ['Model/Endpoints.v hand-written from src/endpoints/core.c; tie = correspondence']
+        'transfers; be.get / be.chunks / be.put / be.sts: the buffer endpoints of endpoints/buffer.c on every small buffer state x request size, random chunk lists, counted buffer-to-buffer moves (obs: return value, octets delivered, read positions / fill level, memory image).  Non-trivial: script non-empty or N > 1.')
+TRUSTED_BASE = TB_COMMON + ['Model/Endpoints.v hand-written from src/endpoints/core.c, Model/BufEndpoints.v from src/endpoints/buffer.c (over the C18 buffer model); tie = correspondence']
 ASSUMPTIONS = ['a driver never returns more than it was asked for and never a positive count without data',
                'source_get_octet / sink_put_octet themselves pass a 0 answer of the driver on (their callers decide); sts_cbc and the plumbing built on it repeat such a call (fix 264994e)',
                'the getbuffer extension paths of sts_atmost/sts_n/sts_drain are not modelled: no endpoint in the library implements the extension',
@@ -21,12 +21,44 @@ LEVEL_TEXT = ('Theorems in Properties_C17.v about Model/Endpoints.v for EVERY dr
               '(delivered ++ remaining = stream; what reached the sink is a prefix), EINTR/EAGAIN never surface, hard errors are returned, invalid counts are refused without a driver call, the at-most variants never exceed the request; '
               'all retry loops terminate (the fuel of the model is proved adequate); the per-octet, fixed-count, counted and draining source-to-sink plumbing, without and with an auxiliary buffer, moves exactly n / everything in order or returns an error with a '
               'prefix in the sink (at most the octet - or the scratch-buffer load - in flight lost), writes only the start of the scratch image, and terminates, for EVERY source script and EVERY sink script (zero-length answers, EINTR/EAGAIN, '
-              'hard errors on either side).')
+              'hard errors on either side); the library's own chunk-style drivers of endpoints/buffer.c - byte buffer as source, chunk list as source, byte buffer as sink - under the same loops: exactly the next N unread octets (across chunk borders and exhausted chunks) or all that is there plus end-of-data; appended exactly or refused unchanged (C17_buffer_source, C17_chunk_list_source, C17_buffer_sink).')
 LEVEL_NOTE = 'Trusted: Coq kernel; hand model of endpoints/core.c (correspondence-tested); harness with scripted drivers. Partial: getbuffer-extension paths not modelled. No axioms.'
 
 EV = [1, 2, 3, 99, 0, -4, -11, -5, -12]
 EV_NOZERO = [1, 2, 3, 99, -4, -11, -5, -12]
 SSIZE_MAX = 2**63 - 1
+
+def gen_be(rng, big):
+    """the library's own chunk-style drivers (endpoints/buffer.c): every small buffer state x every request size for the buffer source
+    (exact and at-most) and the buffer sink; chunk lists with exhausted, partly read and untouched chunks; counted buffer-to-buffer moves"""
+    SS = 2**63 - 1
+    S = 5 if big else 4
+    for size in range(1, S + 1):
+        for used in range(0, size + 1):
+            for off in range(0, used + 1):
+                mem = [0x20 + i for i in range(size)]
+                for n in list(range(0, size + 3)) + [SS, SS + 1, 2**64 - 1]:
+                    yield 'be.get %d %d %d %s %d 0' % (size, used, off, hexs(mem), n)
+                    if n <= size + 2:
+                        yield 'be.get %d %d %d %s %d 1' % (size, used, off, hexs(mem), n)
+                for dl in range(0, size + 2):
+                    data = [0x80 + i for i in range(dl)]
+                    for n in sorted(set([1, dl, max(0, dl - 1)] + ([0, SS + 1] if dl == 1 else []))):
+                        if n <= dl or n > SS:
+                            yield 'be.put %d %d %d %s %s %d' % (size, used, off, hexs(mem), hexs(data), n)
+    for _ in range(4000 if big else 600):
+        nc = rng.randrange(1, 5)
+        useds = [rng.randrange(1, 5) for _ in range(nc)]
+        offs = [rng.choice([0, 0, u, rng.randrange(u + 1)]) for u in useds]
+        tot = sum(useds)
+        mem = [rng.randrange(256) for _ in range(tot)]
+        rest = sum(u - o for u, o in zip(useds, offs))
+        yield 'be.chunks %s %s %s %d %d' % (lst(useds), lst(offs), hexs(mem), rng.choice([0, 0, 0, rng.randrange(nc + 1)]), (rng.randrange(1, rest + 1) if rest and rng.random() < 0.7 else rng.choice([0, rest + 1, rng.randrange(tot + 3)])))
+    for _ in range(2000 if big else 300):
+        ss = rng.randrange(1, 9); su = rng.randrange(ss + 1); so = rng.randrange(su + 1)
+        ks = rng.randrange(1, 17); ku = rng.choice([0, 0, rng.randrange(ks + 1)])
+        yield 'be.sts %d %d %d %s %d %d %s %d' % (ss, su, so, hexs([rng.randrange(256) for _ in range(ss)]), ks, ku,
+                                              hexs([rng.randrange(256) for _ in range(ks)]), (rng.randrange(1, su - so + 1) if su > so and rng.random() < 0.7 else rng.randrange(0, su - so + 3)))
 
 def gen(rng, tier):
     big = tier == 'thorough'
@@ -89,6 +121,11 @@ def gen(rng, tier):
                 yield 'ep.%s %d %s %s %d %s %d' % (op, so, hexs(st), lst(ss), ko, lst(ks), asize)
             else:
                 yield 'ep.%s %d %s %s %d %s %d %d' % (op, so, hexs(st), lst(ss), ko, lst(ks), asize, rng.randrange(0, ln + 3))
+
+_gen_scripted = gen
+def gen(rng, tier):
+    yield from _gen_scripted(rng, tier)
+    yield from gen_be(rng, tier == 'thorough')
 
 def nontrivial(c):
     return ' l: ' not in c + ' ' or True
